@@ -42,7 +42,7 @@ fi
 cd /verif
 git -C /repo apply $D/patch.diff || { echo "PATCH-DOES-NOT-APPLY-TO-REPO" >> $R; exit 0; }
 for c in ${@:-$ID}; do
-  out=$(timeout 1500 ./check $c ${TIER:-quick} -noevidence 2>&1)
+  out=$(VERIF_MINIMISE_S=${VERIF_MINIMISE_S:-4} timeout 1500 ./check $c ${TIER:-quick} -noevidence 2>&1)
   rc=$?
   cls=$(echo "$out" | grep -o "class=[^ ]*" | sort -u | tr '\n' ' ')
   echo "check $c ${TIER:-quick}: exit=$rc $cls" >> $R
